@@ -27,6 +27,9 @@ def fmt(x, scale=None):
     return ("-" if n < 0 else "") + body
 
 
+NEWTXN = "@@NEWTXN"
+
+
 class Gen:
     def __init__(self, rng):
         self.rng = rng
@@ -94,7 +97,7 @@ class Gen:
         OKF = ["plain", "plain", "omitted", "omitted", "cost", "lot", "pair", "assign", "assert", "expr", "multi-omitted",
                "assert-cost", "cancel-assert",
                "assign-zero", "total-cost", "neg-total", "assign-zero-cur", "neg-rate", "bare-zero-assert", "lot-cost-omitted",
-               "big-pair", "expr-precision", "assert-fresh-zero", "assign-fresh", "pair-bare-zero"]
+               "big-pair", "expr-precision", "assert-fresh-zero", "assign-fresh", "pair-bare-zero", "fresh-omitted-cancel"]
         ERRF = ["assert-false", "unbalanced", "zero-entry", "same-sign", "two-omitted", "zero-rate", "same-commodity-rate",
                 "bare-number", "half-unit", "three-commodity", "lot-and-cost", "bare-zero-assert-false", "big-same-sign",
                 "assert-fresh-false", "bare-zero-multi-false"]
@@ -139,6 +142,9 @@ class Gen:
                 meta["flavors"].append("effective-date")
             lines.append("%s %s" % (date, fl))
             for p in posts:
+                if p == NEWTXN:
+                    lines += ["", "%s %s-next" % (date.split("=")[0], fl)]
+                    continue
                 acct, sep, rest = p.partition("  ")
                 if acct in declared and r.random() < 0.5:
                     p = alias[acct] + sep + rest
@@ -354,6 +360,25 @@ class Gen:
             y = Fraction(r.choice([10 ** 14, 5 * 10 ** 14, 2 * 10 ** 15]))
             known[a1] = known[a2] = False
             return [P(a1, "%s %s" % (fmt(x), c)), P(a2, "%s %s" % (fmt(-y if fl == "big-pair" else y), c2))]
+        if fl == "fresh-omitted-cancel":
+            # an account whose FIRST booking is the posting without amount of a transaction in which one commodity cancels among
+            # the others (the inferred amount mentions only what is left over), swept by a bare `= 0` in the next transaction
+            others = [x for x in coms if x != c]
+            if others:
+                c2 = r.choice(others)
+                self.fresh_no = getattr(self, "fresh_no", 0) + 1
+                fresh = "Fresh:Account %d" % self.fresh_no
+                y = self.value()
+                self.track(bal, known, a1, c, v)
+                self.track(bal, known, a2, c, -v)
+                a3 = r.choice(accts)
+                self.track(bal, known, a3, c2, y)
+                self.track(bal, known, a2, c2, -y)
+                first = [P(a1, "%s %s" % (fmt(v), c)), P(a2, "%s %s" % (fmt(-v), c)), P(a3, "%s %s" % (fmt(y), c2))]
+                r.shuffle(first)
+                first.insert(r.randint(0, len(first)), fresh)
+                return first + [NEWTXN, P(fresh, "= 0"), a2]
+            fl = "assign-zero-cur"
         if fl == "assign-zero-cur":
             # `acct = 0 CUR` (zero WITH a commodity) on an account that holds CUR, then more activity on the account:
             # the assigned commodity must be gone from the running balance (not left as a zero entry / stale total)
